@@ -28,7 +28,10 @@ RULE = (
     "copies, its siblings exactly one (forward:missing:while-a-child-closes). Oracle per request, "
     "K = links of the client's children at the quiescent moment before the burst, minus every connection the client "
     "itself opened (SimNet: dialled by 'me' or pierced on the client's ConnectToPeer - a connection to a proposed "
-    "user is a candidate's whatever the children list says: forward:to-candidate): exactly one "
+    "user is a candidate's whatever the children list says: forward:to-candidate), plus every connection that was "
+    "taken as child and that nobody closed although it is missing from the children list "
+    "(forward:missing:child-dropped-without-closing; between bursts the server lowers the child limit below the "
+    "number of children in 20 % of the membership changes with >= 2 children): exactly one "
     "DistributedSearchRequest with the same user/ticket/query on every link in K, none on any other link of any "
     "scripted party (parent, candidates, former children, P links); own-name requests: nothing anywhere and no "
     "reply; reply: the asker receives exactly one PeerSearchReply(username 'me', ticket) whose results / "
